@@ -1422,7 +1422,9 @@ func (m *Monitor) explainDelete(a *mAlloc, client string, now int64) bool {
 		m.M.EndAlloc(a, ivl{now, now}, "server-close")
 		return true
 	}
-	if t, ok := m.ctlEnded[client]; ok && now >= t {
+	if t, ok := m.ctlEnded[client]; ok && now >= t && a.Created.Lo <= t {
+		// (only what existed when that connection ended: an allocation made afterwards, over a
+		// new connection from the same address, is not explained by the old one's end)
 		m.M.EndAlloc(a, ivl{t, now}, "control-connection")
 		return true
 	}
